@@ -664,6 +664,7 @@ func c09dispatch(c *Ctx) {
 		c.forall(rule, routerPkg+".(*patRouter).methodsAllowed", "the request's own method is skipped; another method is listed iff its tree matches the same path; (list, true) iff the list is non-empty", g, gps, func(p *px.Path) (bool, string) {
 			// per iteration: segment by Next events? use branch on treeMethod == method and Search calls
 			var pendingSkip *bool
+			searched := false
 			for i := range p.Events {
 				e := &p.Events[i]
 				switch {
@@ -672,8 +673,17 @@ func c09dispatch(c *Ctx) {
 					if cnd.Kind == px.KBinOp && (cnd.Op == token.EQL || cnd.Op == token.NEQ) && (isParam(cnd.X, methodP) || isParam(cnd.Y, methodP)) {
 						same := (cnd.Op == token.EQL) == e.Taken
 						pendingSkip = &same
+						searched = false
+					}
+				case e.Kind == px.EvCall && e.Call.Builtin == "append" && !e.Inlined:
+					// "matches" in the 405/Allow computation must be the dispatcher's notion of a match: the very function
+					// ServeHTTP dispatches with (Tree.Search). A second matcher (an existence-only walk, a cache of
+					// registered patterns) cannot be shown to agree with it on every route table and path.
+					if !searched {
+						return false, "a method is listed in Allow without consulting Tree.Search — the matcher the dispatcher uses — for this method's tree (a different matcher may disagree with dispatching, e.g. when a literal child is a dead end and the variable sibling matches)"
 					}
 				case search(e):
+					searched = true
 					if pendingSkip == nil {
 						return false, "a tree is searched without comparing its method with the request's"
 					}
